@@ -93,3 +93,18 @@ pub fn run<W: Write>(opts: &Opts, out: &mut W) {
         writeln!(out, "# sweep=u16xi16 pairs={pairs} bad={bad}").unwrap();
     }
 }
+
+pub fn replay<W: Write>(l: &str, out: &mut W) {
+    let get = |k: &str| l.split(' ').find_map(|t| t.strip_prefix(&format!("{k}=")).map(|s| s.to_string())).unwrap();
+    let w: u32 = get("w").parse().unwrap();
+    let lv: u128 = get("l").parse().unwrap();
+    let rv: i128 = get("r").parse().unwrap();
+    match w {
+        8 => one!(out, 8, u8, i8, lv as u8, rv as i8),
+        16 => one!(out, 16, u16, i16, lv as u16, rv as i16),
+        32 => one!(out, 32, u32, i32, lv as u32, rv as i32),
+        64 => one!(out, 64, u64, i64, lv as u64, rv as i64),
+        128 => one!(out, 128, u128, i128, lv, rv),
+        _ => panic!("bad width"),
+    }
+}
